@@ -137,11 +137,14 @@ ConDevSets ==
 ------------------------------------------------------------------------------
 (* type positions and bounds (for boundary completeness of value tables)   *)
 
-\* A type position is the name path extended by "*" for a list element.  The
-\* unfolding of references is bounded by fuel (recursive types).
-RECURSIVE BoundSites(_, _, _, _)
+\* A type position is the name path extended by "*" for a list element.  The set of
+\* positions of a type is infinite for recursive types: the sites claimed are those within
+\* the *first unfolding* of every recursive type (seen = the named types on the way) and at
+\* most `fuel` reference crossings deep -- the positions TypeGen!Values fills with full
+\* boundary tables.
+RECURSIVE BoundSitesR(_, _, _, _, _)
 \* sequence of [tp : type position, q : "int" | "size", b : BigInt, side : "lb" | "ub", ext : BOOLEAN]
-BoundSites(env, T, tp, fuel) ==
+BoundSitesR(env, T, tp, fuel, seen) ==
   LET B == Base(env, T)
       ics == IntCons(env, T)
       scs == SizeCons(env, T)
@@ -155,19 +158,22 @@ BoundSites(env, T, tp, fuel) ==
            IF scs[j].f = "N" THEN <<>>
            ELSE <<[tp |-> tp, q |-> "size", b |-> FromInt(scs[j].lb), side |-> "lb", ext |-> scs[j].ext]>>
                 \o (IF scs[j].ubinf THEN <<>> ELSE <<[tp |-> tp, q |-> "size", b |-> FromInt(scs[j].ub), side |-> "ub", ext |-> scs[j].ext]>>)])
-      refs == IF T.k = "REF" THEN 1 ELSE 0
-      f2 == fuel - refs
+      isRef == T.k = "REF"
+      recursive == isRef /\ \E j \in 1..Len(seen) : seen[j] = T.name
+      f2 == IF isRef THEN fuel - 1 ELSE fuel
+      seen2 == IF isRef THEN Append(seen, T.name) ELSE seen
       kids ==
-        IF f2 < 0 THEN <<>>
-        ELSE CASE B.k \in {"SEQ", "SET"} ->
-                    LET ms == AllMembers(B)
-                    IN Concat([j \in 1..Len(ms) |-> BoundSites(env, ms[j].t, Append(tp, ms[j].n), f2)])
-               [] B.k = "CHOICE" ->
-                    LET alts == AllAlts(B)
-                    IN Concat([j \in 1..Len(alts) |-> BoundSites(env, alts[j].t, Append(tp, alts[j].n), f2)])
-               [] B.k \in {"SEQOF", "SETOF"} -> BoundSites(env, B.e, Append(tp, "*"), f2)
-               [] OTHER -> <<>>
-  IN IF f2 < 0 THEN <<>> ELSE intSites \o sizeSites \o kids
+        CASE B.k \in {"SEQ", "SET"} ->
+               LET ms == AllMembers(B)
+               IN Concat([j \in 1..Len(ms) |-> BoundSitesR(env, ms[j].t, Append(tp, ms[j].n), f2, seen2)])
+          [] B.k = "CHOICE" ->
+               LET alts == AllAlts(B)
+               IN Concat([j \in 1..Len(alts) |-> BoundSitesR(env, alts[j].t, Append(tp, alts[j].n), f2, seen2)])
+          [] B.k \in {"SEQOF", "SETOF"} -> BoundSitesR(env, B.e, Append(tp, "*"), f2, seen2)
+          [] OTHER -> <<>>
+  IN IF f2 < 0 \/ recursive THEN <<>> ELSE intSites \o sizeSites \o kids
+
+BoundSites(env, T, tp, fuel) == BoundSitesR(env, T, tp, fuel, <<>>)
 
 TypePos(pos) == [j \in 1..Len(pos) |-> IF pos[j].s = "i" THEN "*" ELSE pos[j].n]
 
